@@ -16,6 +16,7 @@ import (
 
 // CEnv evaluates contract expressions over a symbolic state.
 type CEnv struct {
+	lastLocalAddr *Addr // address of the local variable last resolved by lookupLocal (nil if it is a register)
 	ex         *Exec
 	fr         *Frame
 	st         *State
@@ -264,6 +265,9 @@ func (e *CEnv) binary(n *EBinary) Val {
 					e.fail("comparison of %s and %s", a.T, b.T)
 				}
 				eq = c.Eq(a.Tm, b.Tm)
+				if r := e.ex.emptyStrEq(a.Tm, b.Tm); r != nil {
+					eq = r
+				}
 				if bw, ok := e.ex.W.BridgeWidth(a.T); ok && a.Tm.Sort == smt.Int && bvShaped(a.Tm) && bvShaped(b.Tm) {
 					if bw2, ok2 := e.ex.W.BridgeWidth(b.T); ok2 && bw2 == bw {
 						// two values of a `bvtype` type (no arithmetic on either side): compared as bit-vectors
@@ -314,7 +318,11 @@ func (e *CEnv) binary(n *EBinary) Val {
 		return Val{T: tBool, Tm: c.Ge(a.Tm, b.Tm)}
 	case "+":
 		if a.Tm.Sort == e.ex.W.Str {
-			return Val{T: a.T, Tm: c.App("str_cat", e.ex.W.Str, a.Tm, b.Tm)}
+			r := c.App("str_cat", e.ex.W.Str, a.Tm, b.Tm)
+			if !c.HasVar(r) {
+				e.ex.assume(c.Eq(e.ex.strLen(r), c.Add(e.ex.strLen(a.Tm), e.ex.strLen(b.Tm))))
+			}
+			return Val{T: a.T, Tm: r}
 		}
 		return Val{T: a.T, Tm: c.Add(a.Tm, b.Tm)}
 	case "-":
@@ -533,9 +541,11 @@ func (e *CEnv) lookupLocal(name string) (Val, bool) {
 		return Val{}, false
 	}
 	v := get(found)
+	e.lastLocalAddr = nil
 	if isAddr {
 		a := e.ex.toAddr(v)
 		t := e.ex.typeAt(a)
+		e.lastLocalAddr = a
 		return e.ex.loaded(t, e.ex.load(e.st, a), e.st), true
 	}
 	return v, true
@@ -748,7 +758,11 @@ func (e *CEnv) call(n *ECall) Val {
 			case *types.Array:
 				return Val{T: tInt, Tm: c.IntLit(t.Len())}
 			case *types.Basic:
-				return Val{T: tInt, Tm: e.ex.strLen(v.Tm)}
+				ln := e.ex.strLen(v.Tm)
+				if !c.HasVar(ln) {
+					e.ex.assume(c.Le(c.IntLit(0), ln)) // every string has a non-negative length
+				}
+				return Val{T: tInt, Tm: ln}
 			}
 			e.fail("len of %s", v.T)
 		case "min", "max":
@@ -1037,11 +1051,7 @@ func (e *CEnv) applyPred(pd *PredDecl, args []Expr) Val {
 		s := e.sub()
 		e.enterPredPkg(s, pd)
 		resT := s.specType(pd.ResType)
-		v := e.eval(args[0])
-		ref := v.Tm
-		if ref == nil {
-			ref = e.ex.ptrTerm(v)
-		}
+		ref := e.ghostRef(args[0])
 		k := e.ex.ghostKey(pd.Name, resT)
 		return Val{T: resT, Tm: e.ex.W.C.Select(e.ex.heapGet(e.st, k), ref)}
 	}
@@ -1086,6 +1096,36 @@ func (e *CEnv) applyPred(pd *PredDecl, args []Expr) Val {
 	s.fr = nil
 	e.enterPredPkg(s, pd)
 	return s.eval(pd.Body)
+}
+
+// ghostRef: the reference of the object a ghost field is read from; a variable of the object type itself (rather
+// than a pointer to it) stands for its own address.
+func (e *CEnv) ghostRef(x Expr) *smt.Term {
+	if id, ok := x.(*EIdent); ok {
+		if _, bound := e.vars[id.Name]; !bound && e.fr != nil {
+			if _, isLocal := e.lookupLocal(id.Name); isLocal && e.lastLocalAddr != nil {
+				a := e.lastLocalAddr
+				if _, isPtr := e.ex.typeAt(a).Underlying().(*types.Pointer); !isPtr {
+					return e.ex.ptrTerm(Val{T: types.NewPointer(e.ex.typeAt(a)), Addr: a})
+				}
+			}
+		}
+	}
+	v := e.eval(x)
+	if v.Tm != nil {
+		return v.Tm
+	}
+	return e.ex.ptrTerm(v)
+}
+
+// tryAddr is evalAddr without failing on expressions that are not addressable.
+func (e *CEnv) tryAddr(x Expr) (a *Addr) {
+	defer func() {
+		if r := recover(); r != nil {
+			a = nil
+		}
+	}()
+	return e.evalAddr(x)
 }
 
 // enterPredPkg makes a predicate body resolve names in the package that declares it.
